@@ -27,7 +27,42 @@ def gen_case(r, local_only):
         CONTENTS = small
 
 
+def gen_local_fault_case(r):
+    """A LOCAL storage fault made to happen while a Set is tee'd through the wrapper, under random remote faults: early (the
+    path's directory is a regular file) or late (the rename lands on a non-empty directory), then the entry is read back on
+    both machines, written again without the fault and read again."""
+    nf = r.below(4)
+    faults = [r.choice(["n", "n", "f", "e", "4"]) for _ in range(nf)]
+    c = r.choice(CONTENTS + [b"", BIG])
+    kind = r.choice(["cas", "target", "taint", "late"])
+    if kind == "cas":
+        d = dg(c)
+        wr, rd = "c:A:w:write:%s:%s" % (d, vlib.hx(c)), ["c:B:w:load:%s" % d, "c:A:w:load:%s" % d, "c:B:w:ex:%s" % d]
+        ops = ["lf=e", "lbreak:A:cas", wr, "lfix:A:cas"]
+    elif kind == "target":
+        refs = ".".join(dg(x) for x in r.sample(CONTENTS, r.below(3)))
+        wr, rd = "r:A:w:write:r1:%s" % refs, ["r:B:w:load:r1", "r:A:w:load:r1", "r:B:w:has:r1"]
+        ops = ["lf=e", "lbreak:A:target", wr, "lfix:A:target"]
+    elif kind == "taint":
+        wr, rd = "b:A:w:set:taint:k1:%s" % vlib.hx(c), ["b:B:w:get:taint:k1", "b:A:w:get:taint:k1", "b:B:w:ex:taint:k1"]
+        ops = ["lf=e", "lbreak:A:taint", wr, "lfix:A:taint"]
+    else:
+        wr, rd = "b:A:w:set:taint:k1:%s" % vlib.hx(c), ["b:B:w:get:taint:k1", "b:B:l:get:taint:k1", "b:B:w:ex:taint:k1"]
+        ops = ["lf=o,l", "b:A:l:set:taint:k1/x:%s" % vlib.hx(r.choice(CONTENTS)), wr]
+    for _ in range(1 + r.below(3)):
+        ops.append(r.choice(rd))
+    if kind != "late":
+        if r.chance(1, 2):
+            ops.append("reset:A")
+        ops.append(wr)
+        for _ in range(1 + r.below(2)):
+            ops.append(r.choice(rd))
+    return "case\t%s\t%s" % (",".join(faults) if faults else "-", "\t".join(ops))
+
+
 def gen_case_(r, local_only):
+    if not local_only and r.chance(1, 10):
+        return gen_local_fault_case(r)
     ops = []
     nf = 0 if local_only else r.below(7)
     faults = [r.choice(["n", "n", "n", "f", "e", "4", "m"]) for _ in range(nf)]
